@@ -242,7 +242,18 @@ func genPrimary(rt *rapid.T, c *vk.Case) *primary {
 		}
 		es = stx.Dedup(es)
 		var md *store.TxMetadata
-		if p.cfg.HdrVersion == 1 {
+		if p.cfg.HdrVersion == 1 && rapid.IntRange(0, 19).Draw(rt, "zeroEntryTx") == 0 {
+			// a transaction with a truncation marker and no entries: what pkg/database commits before truncating a
+			// database without SQL catalog
+			if vk.Excluded(kfZeroEntry) {
+				vk.CountExcluded(kfZeroEntry) // known finding: replicas refuse it; an ordinary transaction is generated instead
+			} else {
+				es = nil
+				md = store.NewTxMetadata().WithTruncatedTxID(uint64(i + 1))
+				c.Label("zero-entry-tx")
+			}
+		}
+		if p.cfg.HdrVersion == 1 && md == nil {
 			switch rapid.IntRange(0, 7).Draw(rt, "txmd") {
 			case 0:
 				md = store.NewTxMetadata()
